@@ -72,11 +72,15 @@ class Recorder:
         kind = op[0]
         ev = {"a": kind, "err": False}
         vals = None
-        if kind == "chunk":
+        if kind in ("chunk", "chunk32"):
             n = op[1]
             u = self.utt if self.inprog else self.utt + 1
             start = self.fed if self.inprog else 0
             x = self._arr(u, start, n)
+            if kind == "chunk32":  # the tokens are exactly representable in single precision
+                x = x.astype(np.float32)
+                x.flags.writeable = not self.readonly
+                ev["a"] = "chunk"
             keep = x.copy()
             ev["c"] = n
             try:
